@@ -40,7 +40,7 @@ func runC06(r *R) {
 				}
 				for _, pc := range calls {
 					g, _ := Guard(fn, pc.(ssa.Instruction), in, ErrNilC(pc))
-					dom := !mustDominate[p] || pc.Block().Dominates(in.Block())
+					dom := !mustDominate[p] || Precedes(pc, in)
 					r.Check(g && dom, "C06-R1", fn, bareName(p)+" → "+cname, cm.Pos(), "precedes with err==nil", "changes can be committed although "+bareName(p)+" failed or was skipped")
 				}
 			}
@@ -77,6 +77,23 @@ func runC06(r *R) {
 	// ---- R2
 	r.Rule("C06-R2", "GetCurrentState: errors of IndexMount, addCollection and EachCollection each reach `errs`; nil return only when len(errs)==0 after wg.Wait(); AddReplicas only after IndexMount err==nil", 1)
 	if fn := r.NeedFn("C06-R2", bal+"GetCurrentState"); fn != nil {
+		// the error channel: the one GetCurrentState's failing return receives from (whatever it is called)
+		errsName := "errs"
+		for _, ret := range Returns(fn) {
+			for _, v := range returnOperand(ret, ret.Results[len(ret.Results)-1]) {
+				if u, ok := v.(*ssa.UnOp); ok && u.Op == token.ARROW {
+					if ld, ok := Strip(u.X).(*ssa.UnOp); ok {
+						if al, ok := ld.X.(*ssa.Alloc); ok && al.Comment != "" {
+							errsName = al.Comment
+						}
+					}
+				}
+			}
+		}
+		isErrs := func(ch ssa.Value) bool {
+			c := Canon(ch)
+			return strings.Contains(c, "free:"+errsName) || strings.Contains(c, "."+errsName) || strings.HasSuffix(c, ":"+errsName)
+		}
 		sendsErr := func(cl *ssa.Function, from ssa.CallInstruction, errIdx int) bool {
 			// some select/send on errs carries (a value derived from) this call's error
 			found := false
@@ -84,12 +101,12 @@ func runC06(r *R) {
 				var vals []ssa.Value
 				switch x := in.(type) {
 				case *ssa.Send:
-					if strings.Contains(Canon(x.Chan), "errs") {
+					if isErrs(x.Chan) {
 						vals = append(vals, x.X)
 					}
 				case *ssa.Select:
 					for _, st := range x.States {
-						if st.Dir == 1 /* SendOnly */ && strings.Contains(Canon(st.Chan), "errs") {
+						if st.Dir == 1 /* SendOnly */ && isErrs(st.Chan) {
 							vals = append(vals, st.Send)
 						}
 					}
@@ -97,6 +114,39 @@ func runC06(r *R) {
 				for _, v := range vals {
 					if valueDerivesFromErr(v, from, errIdx) {
 						found = true
+					}
+				}
+				// or through a small reporting helper (`reportErr := func(e error) { select { case errs <- e: default: } }`)
+				if c, isC := in.(*ssa.Call); isC && !c.Call.IsInvoke() {
+					var f *ssa.Function
+					if mc, ok := ResolveOnce(c.Call.Value).(*ssa.MakeClosure); ok {
+						f, _ = mc.Fn.(*ssa.Function)
+					} else {
+						f = c.Call.StaticCallee()
+					}
+					if f != nil && len(f.Blocks) > 0 && len(f.Params) == len(c.Call.Args) {
+						allInstrs(f, func(in2 ssa.Instruction) {
+							var sent []ssa.Value
+							switch x := in2.(type) {
+							case *ssa.Send:
+								if isErrs(x.Chan) {
+									sent = append(sent, x.X)
+								}
+							case *ssa.Select:
+								for _, st := range x.States {
+									if st.Dir == 1 && isErrs(st.Chan) {
+										sent = append(sent, st.Send)
+									}
+								}
+							}
+							for _, sv := range sent {
+								for j, p := range f.Params {
+									if Strip(sv) == ssa.Value(p) && valueDerivesFromErr(c.Call.Args[j], from, errIdx) {
+										found = true
+									}
+								}
+							}
+						})
 					}
 				}
 			})
@@ -240,7 +290,7 @@ func runC06(r *R) {
 			}
 			var last ssa.CallInstruction
 			for _, c := range counts {
-				if c.Block().Dominates(ret.Block()) && (last == nil || Before(last.(ssa.Instruction), c.(ssa.Instruction))) {
+				if Precedes(c, ret) && (last == nil || Before(last.(ssa.Instruction), c.(ssa.Instruction))) {
 					last = c
 				}
 			}
@@ -288,12 +338,9 @@ func runC06(r *R) {
 				found = true
 				at := lastInstr(pred)
 				ok := GuardOrPass(fn, nil, at, nil,
-					EqC("len(page.Items) == 0", func(v ssa.Value) bool {
+					IntC("len(page.Items) == 0", func(v ssa.Value) bool {
 						return isLenOf(v, func(x ssa.Value) bool { return strings.Contains(Canon(x), "CollectionList.Items") })
-					}, ConstIntVP(0)),
-					GeC("0 < len(page.Items)", ConstIntVP(0), func(v ssa.Value) bool {
-						return isLenOf(v, func(x ssa.Value) bool { return strings.Contains(Canon(x), "CollectionList.Items") })
-					}),
+					}, token.EQL, 0, true),
 					NeqC("last.ModifiedAt != filterTime", func(v ssa.Value) bool { return strings.Contains(Canon(v), "ModifiedAt") }, AnyV))
 				r.Check(ok, "C06-R7", fn, "gettingExactTimestamp = false", at.Pos(), "only after an empty page or a timestamp change", "the scan can leave exact-timestamp mode after a non-empty page of the same timestamp: the remaining collections with that timestamp are never fetched")
 			}
